@@ -1,11 +1,11 @@
 package main
 
 import (
-	"os"
-	"runtime/debug"
 	"fmt"
 	"go/token"
 	"go/types"
+	"os"
+	"runtime/debug"
 	"strings"
 )
 
@@ -368,7 +368,6 @@ func (e *Env) valueEq(a, b Value, ex *Expr) Term {
 	return And(cs...)
 }
 
-
 // quant evaluates forall/exists, expanding literal ranges.
 func (e *Env) quant(ex *Expr) Term {
 	body := ex.Args[0]
@@ -515,6 +514,13 @@ func (e *Env) call(ex *Expr) Value {
 	case "len":
 		switch v := e.eval(args[0]).(type) {
 		case SliceV:
+			if _, lit := v.Len.IsLit(); !lit && e.st != nil && e.st.formal == nil {
+				// a length fixed by the path condition (e.g. after an arity check) is used as a literal,
+				// so that recursive specification functions over it unfold
+				if k, ok := knownLits(e.st)[v.Len.S]; ok {
+					return Scalar{Term{k, SInt}}
+				}
+			}
 			return Scalar{v.Len}
 		case Scalar:
 			if v.T.Sort == "Str" {
@@ -686,6 +692,41 @@ func (e *Env) call(ex *Expr) Value {
 			e.fail("contents: element type %s has several leaves", sv.Elem)
 		}
 		return Scalar{Select(e.x.heapGet(e.st, ms[0]), sv.Arr)}
+	case "rkind":
+		// rkind(x): reflect.Kind of a reflect.Type value (or of a Dtype, which embeds one)
+		v := e.eval(args[0])
+		if pv, ok := v.(PtrV); ok {
+			v = e.x.loadPtr(e.st, pv)
+		}
+		if sv, ok := v.(StructV); ok && len(sv.Fields) == 1 {
+			v = sv.Fields[0]
+		}
+		iv, ok := v.(IfaceV)
+		if !ok {
+			e.fail("rkind of %T", v)
+		}
+		e.x.decls.Fun("rtype_kind", []string{SInt}, "E_uint")
+		return Scalar{App("E_uint", "rtype_kind", iv.Val)}
+	case "kindlit":
+		return Scalar{e.x.decls.Const("lit_E_uint_"+fmt.Sprint(args[0].Int), "E_uint")}
+	case "unbox":
+		// unbox("int8", x): the dynamic value of interface x read as the given type
+		bt, ok := basicByName[args[0].Name]
+		if !ok {
+			e.fail("unbox: unknown type %q", args[0].Name)
+		}
+		iv, ok := e.eval(args[1]).(IfaceV)
+		if !ok {
+			e.fail("unbox of non-interface")
+		}
+		return e.x.unbox(e.st, bt, iv.Val)
+	case "hastype":
+		bt, ok := basicByName[args[1].Name]
+		if !ok {
+			e.fail("hastype: unknown type %q", args[1].Name)
+		}
+		iv := e.eval(args[0]).(IfaceV)
+		return Scalar{Eq(iv.Tag, IntLit(int64(e.x.P.typeTag(bt))))}
 	case "niliface":
 		return IfaceV{IntLit(0), IntLit(0)}
 	case "fst":
@@ -807,3 +848,53 @@ func (e *Env) specCall(f *SpecFn, args []*Expr, ex *Expr) Value {
 }
 
 func isLitTerm(t Term) bool { _, ok := t.IsLit(); return ok }
+
+// lvalue resolves a selector chain to the heap location of a field (following embedded pointers).
+func (e *Env) lvalue(ex *Expr) (PtrV, bool) {
+	switch ex.Op {
+	case "id":
+		if p, ok := e.eval(ex).(PtrV); ok {
+			return p, true
+		}
+	case "sel":
+		var base PtrV
+		if ex.Args[0].Op == "id" {
+			b, ok := e.eval(ex.Args[0]).(PtrV)
+			if !ok {
+				return PtrV{}, false
+			}
+			base = b
+		} else {
+			b, ok := e.lvalue(ex.Args[0])
+			if !ok {
+				return PtrV{}, false
+			}
+			base = b
+		}
+		t := typeAtPath(base.Root, base.Path)
+		if pt, ok := t.Underlying().(*types.Pointer); ok {
+			base = e.x.loadPtr(e.st, base).(PtrV)
+			t = pt.Elem()
+		}
+		st, ok := t.Underlying().(*types.Struct)
+		if !ok {
+			return PtrV{}, false
+		}
+		path, _ := findField(st, ex.Name)
+		if path == nil {
+			return PtrV{}, false
+		}
+		np := base
+		cur := t
+		for i, fi := range path {
+			np.Path = append(append([]int(nil), np.Path...), fi)
+			cur = cur.Underlying().(*types.Struct).Field(fi).Type()
+			if pt, ok := cur.Underlying().(*types.Pointer); ok && i < len(path)-1 {
+				np = e.x.loadPtr(e.st, np).(PtrV)
+				cur = pt.Elem()
+			}
+		}
+		return np, true
+	}
+	return PtrV{}, false
+}
